@@ -34,10 +34,28 @@ DEMO_MUT=$(go test $DEMO_FLAGS -vet=off -count=1 -run TestDemo . >/dev/null 2>&1
 rm zz_demo_test.go
 echo "confirm: demo-on-clean=$DEMO_CLEAN suite-with-patch=$SUITE demo-with-patch=$DEMO_MUT"
 cd /verif
-# the scratch worktree still has the patch applied: run the checks against it (VERIF_REPO), /repo and /verif/evidence stay untouched
+# the scratch worktree still has the patch applied: run the checks against it (VERIF_REPO), /repo and /verif/evidence stay untouched.
+# If the patch had to be applied to an older commit, that commit may still contain defects that were repaired later and that
+# the checks report as well: the same checks then also run on the unpatched base, and only signatures that the patch ADDS count.
+CLEANWT=""
+if [ "$BASE" != "$(git -C /repo rev-parse HEAD)" ]; then
+  CLEANWT=$(mktemp -d /tmp/cleanbase-XXXXXX); rmdir "$CLEANWT"
+  git -C /repo worktree add -q --detach "$CLEANWT" "$BASE" || CLEANWT=""
+fi
+cleanup2() { [ -n "$CLEANWT" ] && git -C /repo worktree remove --force "$CLEANWT" 2>/dev/null; cleanup; }
+trap cleanup2 EXIT
 for c in $CHECKS; do
   OUT=$(VERIF_REPO="$WT" ./checks/run.sh $c quick 2>&1)
   RC=$?
-  echo "check $c: exit=$RC $(echo "$OUT" | grep -c '^VIOLATION') violation line(s); first: $(echo "$OUT" | grep -A1 '^VIOLATION' | grep signature | head -2 | tr '\n' ' ')"
+  SIGS=$(echo "$OUT" | grep '^  signature: ' | sort -u)
+  if [ -n "$CLEANWT" ] && [ $RC -eq 1 ]; then
+    BASESIGS=$(VERIF_REPO="$CLEANWT" ./checks/run.sh $c quick 2>&1 | grep '^  signature: ' | sort -u)
+    NEW=$(comm -23 <(echo "$SIGS") <(echo "$BASESIGS") | grep -v '^$')
+    NB=$(echo "$BASESIGS" | grep -c signature)
+    if [ -z "$NEW" ]; then RC=0; fi
+    echo "check $c: exit=$RC $(echo "$NEW" | grep -c signature) violation signature(s) added by the patch ($NB more are defects of the old base, repaired since); first: $(echo "$NEW" | head -2 | tr '\n' ' ')"
+  else
+    echo "check $c: exit=$RC $(echo "$OUT" | grep -c '^VIOLATION') violation line(s); first: $(echo "$OUT" | grep -A1 '^VIOLATION' | grep signature | head -2 | tr '\n' ' ')"
+  fi
   [ $RC -eq 2 ] && echo "$OUT" | grep -i "HARNESS" | head -3
 done
